@@ -1022,10 +1022,10 @@ func (c *PathCtx) fmtValue(a Iface, verb byte) *Term {
 		}
 	}
 	// error / Stringer: call the method
-	if m := c.eng.prog.LookupMethod(a.T, nil, "Error"); m != nil {
+	if m := c.eng.lookupMethod(a.T, "Error"); m != nil {
 		return c.callSSA(nil, 0, m, []Value{a.V}, nil).(*Term)
 	}
-	if m := c.eng.prog.LookupMethod(a.T, nil, "String"); m != nil && c.eng.classify(m) == clsFollow {
+	if m := c.eng.lookupMethod(a.T, "String"); m != nil && c.eng.classify(m) == clsFollow {
 		return c.callSSA(nil, 0, m, []Value{a.V}, nil).(*Term)
 	}
 	panic(inconclusive("fmt of %v (%T)", a.T, a.V))
@@ -1070,7 +1070,7 @@ func (c *PathCtx) errorUnwrap(e Iface) Value {
 			return w.(Iface)
 		}
 	}
-	if m := c.eng.prog.LookupMethod(e.T, nil, "Unwrap"); m != nil && c.eng.classify(m) == clsFollow {
+	if m := c.eng.lookupMethod(e.T, "Unwrap"); m != nil && c.eng.classify(m) == clsFollow {
 		if m.Signature.Results().Len() == 1 {
 			if r, ok := c.callSSA(nil, 0, m, []Value{e.V}, nil).(Iface); ok {
 				return r
@@ -1091,9 +1091,28 @@ func errorsIs(c *PathCtx, fr *frame, args []Value) Value {
 				return tTrue
 			}
 		}
+		// an error type may define its own Is(error) bool (errors.Is consults it)
+		if m := c.eng.lookupMethod(e.T, "Is"); m != nil && c.eng.classify(m) == clsFollow && m.Signature.Params().Len() == 1 && m.Signature.Results().Len() == 1 {
+			if r, ok := c.callSSA(nil, 0, m, []Value{e.V, target}, nil).(*Term); ok {
+				if c.branch(r, "errors.Is:method") {
+					return tTrue
+				}
+			}
+		}
 		e, _ = c.errorUnwrap(e).(Iface)
 	}
 	return tFalse
+}
+
+// lookupMethod is prog.LookupMethod for an exported method name that may be absent.
+func (e *Engine) lookupMethod(T types.Type, name string) *ssa.Function {
+	if T == nil {
+		return nil
+	}
+	if sel := e.prog.MethodSets.MethodSet(T).Lookup(nil, name); sel == nil {
+		return nil
+	}
+	return e.prog.LookupMethod(T, nil, name)
 }
 
 func (e *Engine) errorStringPtrType() types.Type {
